@@ -18,6 +18,7 @@ import YataProofs.Numeric.LinVol
 import YataProofs.Indicators.Keltner
 import YataProofs.Indicators.CMFRange
 import YataProofs.Indicators.MFIRange
+import YataProofs.Indicators.TSIndRange
 import YataProofs.Numeric.TSIRange
 import YataProofs.Numeric.MeanAbsDev
 namespace Yata.C12
@@ -108,6 +109,24 @@ theorem C12_mfi_reachable {P period : Nat} (zone : ℚ) (c0 : Candle ℚ) (s0 : 
       ∀ o ∈ outs, ∃ v, o = [.exact (1 - zone), v, .exact zone] ∧ 0 ≤ v.value ∧ v.value ≤ 1 :=
   MFI.run_range zone c0 s0 h0 cs hv
 
+/-- TrendStrengthIndex (documented range [−1, 1]) over whole streams: from the constructor, at every step the value is
+    `p/√q` with `p² ≤ q` (Cauchy–Schwarz between positions and window), so its square is at most 1 wherever the radicand
+    is positive; no step panics -/
+theorem C12_trend_strength_range {P period ro : Nat} (zone : ℚ) (source : Source) (src0 : ℚ) (s0 : TSInd)
+    (h0 : TSInd.init P period zone ro source src0 = .ok s0) (xs : List ℚ) :
+    ∃ outs s', runM TSInd.vals s0 xs = .ok (outs, s') ∧ outs.length = xs.length ∧
+      ∀ i (hi : i < outs.length), ∃ p q κn κd, outs[i] = [.sqrtQuot p q κn κd] ∧ p ^ 2 ≤ q := by
+  obtain ⟨hinv, hc, _, _⟩ := TSInd.init_inv zone source src0 s0 h0
+  obtain ⟨os, s', hr, _, hlen, hout⟩ := runM_invariant TSInd.vals
+    (fun h s => TSInd.Inv P (List.replicate period src0 ++ h) s ∧ TSInd.Consts s)
+    (fun _ o => ∃ p q κn κd, o = [.sqrtQuot p q κn κd] ∧ p ^ 2 ≤ q)
+    (by
+      rintro h s x ⟨hi, hcs⟩
+      obtain ⟨p, q, κn, κd, s', hv, hle, hi', hc'⟩ := TSInd.vals_sq_le x hi hcs
+      exact ⟨_, s', hv, ⟨by rw [← List.append_assoc]; exact hi', hc'⟩, p, q, κn, κd, rfl, hle⟩)
+    xs [] s0 ⟨by simpa using hinv, hc⟩
+  exact ⟨os, s', hr, hlen, hout⟩
+
 theorem C12_tr_nonneg (c : Candle ℚ) (p : ℚ) (h : c.low ≤ c.high) : 0 ≤ c.trClose p := tr_nonneg c p h
 
 theorem C12_clv_range (c : Candle ℚ) (h1 : c.low ≤ c.close) (h2 : c.close ≤ c.high) : -1 ≤ c.clv ∧ c.clv ≤ 1 :=
@@ -139,3 +158,4 @@ end Yata.C12
 #print axioms Yata.C12.C12_tsi_range
 #print axioms Yata.C12.C12_cmf_range
 #print axioms Yata.C12.C12_mfi_reachable
+#print axioms Yata.C12.C12_trend_strength_range
